@@ -109,6 +109,7 @@ func (s *Sess) genHostile(lim Limits) *Op {
 	op := &Op{K: k, H: s.hostileHandle(lim)}
 	switch k {
 	case OpSetattr:
+		op.Guard = r.Intn(3) == 0
 		op.SetSize = r.Intn(3) != 0
 		op.Size = hostileU64(r, lim)
 		op.SetAtime = hostileEnum(r)
